@@ -219,10 +219,15 @@ func AfterFunc(site string, d time.Duration, f func()) *time.Timer {
 	if s == nil {
 		return time.AfterFunc(d, f)
 	}
-	label := s.childLabel(s.current(), "timer "+site)
+	parent := s.current()
+	label := s.childLabel(parent, "timer "+site)
+	group := ""
+	if parent != nil {
+		group = parent.Group
+	}
 	return time.AfterFunc(d, func() {
 		id := goid()
-		t := &Task{Label: label, goid: id, wake: make(chan struct{})}
+		t := &Task{Label: label, goid: id, wake: make(chan struct{}), Group: group}
 		s.mu.Lock()
 		s.byGoid[id] = t
 		s.tasks = append(s.tasks, t)
